@@ -61,35 +61,41 @@ fn style_of(s: &str) -> UnderlineStyle {
     }
 }
 
-/// FaceAttrs with exactly these raw bits, built through the public operators
-/// (`|=` ORs the raw bits, so the unused underline codes 6 and 7 are reachable too).
+/// FaceAttrs with these packed bits (3 bits underline style code 0..=5, then the five flags), built
+/// through the public constants and `|`.  Every public operation on FaceAttrs goes through
+/// pack(underline(), flags), so the style codes 6 and 7 cannot be constructed; what was built is read
+/// back through the public accessors and must be what was asked for.
 pub fn attrs_from_bits(bits: u64) -> FaceAttrs {
     let mut a = FaceAttrs::EMPTY;
-    match bits & 7 {
-        1 => a |= FaceAttrs::UNDERLINE,
-        2 => a |= FaceAttrs::UNDERLINE_DOUBLE,
-        3 => a |= FaceAttrs::UNDERLINE_CURLY,
-        4 => a |= FaceAttrs::UNDERLINE_DOTTED,
-        5 => a |= FaceAttrs::UNDERLINE_DASHED,
-        6 => {
-            a |= FaceAttrs::UNDERLINE_DOUBLE;
-            a |= FaceAttrs::UNDERLINE_DOTTED;
-        }
-        7 => {
-            a |= FaceAttrs::UNDERLINE_CURLY;
-            a |= FaceAttrs::UNDERLINE_DOTTED;
-        }
-        _ => {}
-    }
-    for (k, f) in [FaceAttrs::BOLD, FaceAttrs::ITALIC, FaceAttrs::BLINK, FaceAttrs::REVERSE, FaceAttrs::STRIKE]
-        .into_iter()
-        .enumerate()
-    {
+    let style = match bits & 7 {
+        1 => UnderlineStyle::Straight,
+        2 => UnderlineStyle::Double,
+        3 => UnderlineStyle::Curly,
+        4 => UnderlineStyle::Dotted,
+        5 => UnderlineStyle::Dashed,
+        0 => UnderlineStyle::None,
+        other => panic!("harness: underline style code {} is not constructible", other),
+    };
+    a |= FaceAttrs::from(style);
+    let flags = [FaceAttrs::BOLD, FaceAttrs::ITALIC, FaceAttrs::BLINK, FaceAttrs::REVERSE, FaceAttrs::STRIKE];
+    for (k, f) in flags.into_iter().enumerate() {
         if bits & (8 << k) != 0 {
-            a |= f;
+            a = a | f;
         }
     }
+    // read back
+    assert!(a.underline() == style, "harness: FaceAttrs underline read back differs");
+    for (k, f) in flags.into_iter().enumerate() {
+        assert!(a.contains(f) == (bits & (8 << k) != 0), "harness: FaceAttrs flag read back differs");
+    }
+    assert!(a.is_empty() == (bits & 255 == 0), "harness: FaceAttrs emptiness read back differs");
     a
+}
+
+/// the attribute sets that exist: style code 0..=5 x 32 flag sets
+pub fn valid_bits(bits: u64) -> u64 {
+    let b = bits & 255;
+    if b & 7 > 5 { (b & !7) | ((b & 7) - 2) } else { b }
 }
 
 fn big(v: &Value) -> i128 {
@@ -146,7 +152,7 @@ fn build(c: &Value) -> (TerminalCommand, String, Vec<RGBA>) {
         "Face" => {
             let fg = rgba_of(&c["fg"]);
             let bg = rgba_of(&c["bg"]);
-            let bits = c["bits"].as_u64().unwrap_or(0) & 255;
+            let bits = valid_bits(c["bits"].as_u64().unwrap_or(0));
             colors.extend(fg);
             colors.extend(bg);
             (
@@ -506,7 +512,7 @@ fn rand_cmd(rng: &mut Rng) -> Value {
             };
             json!({"t": "Char", "c": c})
         }
-        1 | 2 | 3 => json!({"t": "Face", "fg": ocolor(rng, 60), "bg": ocolor(rng, 60), "bits": rng.below(256)}),
+        1 | 2 | 3 => json!({"t": "Face", "fg": ocolor(rng, 60), "bg": ocolor(rng, 60), "bits": valid_bits(rng.below(256))}),
         4 | 5 | 6 => {
             let ob = |rng: &mut Rng| -> Value {
                 match rng.below(3) {
@@ -593,10 +599,10 @@ pub fn generate(rng: &mut Rng, n: usize, tier: &str) -> Vec<Value> {
             }
         }
     }
-    // (b) every attribute set (all 256 raw values: 5 flags x 8 underline codes) under every depth,
+    // (b) every attribute set (6 underline styles x 32 flag sets; the codes 6 and 7 do not exist) under every depth,
     //     with all four colour presence combinations cycling
     for depth in DEPTHS {
-        for bits in 0..256u64 {
+        for bits in (0..256u64).filter(|b| b & 7 <= 5) {
             let reps = if thorough { 4 } else { 1 };
             for r in 0..reps {
                 let k = if thorough { r } else { rng.below(4) };
